@@ -21,6 +21,7 @@ C08 protocol  (`#case <n> k=<K> v=<V> st=hs|cs|col` resets A, B to `default()`, 
   X forcedrain             -> (K = 0, V ≥ 1) X := drained leaf, J := forced; dump of J
   J deepjoin               -> (st=hs, K ≥ 1) J := DeepJoin(A,B); dump of J
   J cart                   -> (st=hs, K+V ≤ 3) J := CartesianProduct(A,B) into a height-1 trie; dump of J
+  J eqnew                  -> J ==/cmp the trie rebuilt by insert from J's rows, and without the least row
   J rows | J dump | J contains <row>      (row arity: deepjoin K+2V, cart 2(K+V), forcedrain V)
   J isbot | J eq0 | J cmp0                 (st=hs only)  eq0/cmp0 compare J with `default()`
 Anything else -> bad-op.
@@ -118,6 +119,17 @@ def stepGht (s : St) (ws : List String) : St × String :=
       match cmd with
       | ["eq0"] => if hs then (s, showBool (geq n j (gempty n))) else (s, "bad-op")
       | ["cmp0"] => if hs then (s, showOrd (gcmp n j (gempty n))) else (s, "bad-op")
+      | ["eqnew"] =>
+        if hs then
+          let rs := sortRows (stCollect .set (grows n j))
+          let full := gnewFrom .set n 0 rs
+          let first := s!"{showBool (geq n j full)}/{showBool (geq n full j)} {showOrd (gcmp n j full)}/{showOrd (gcmp n full j)}"
+          match rs with
+          | [] => (s, first ++ " -")
+          | _ :: tl =>
+            let less := gnewFrom .set n 0 tl
+            (s, first ++ s!" {showBool (geq n j less)}/{showBool (geq n less j)} {showOrd (gcmp n j less)} {showOrd (gcmp n less j)}")
+        else (s, "bad-op")
       | ["rows"] | ["dump"] | ["isbot"] | ["contains", _] =>
         (match slotOp s.sk jar hs n j cmd with
         | some (_, out) => (s, out)
